@@ -164,6 +164,42 @@ def fraction_values(ctx, r, n, dens):
 
 
 # ------------------------------------------------------------------------------------------ B
+def values_without_a_fraction(ctx, r, n):
+    """values created *without* a fraction (a bare number, nothing at all, a float handed to FractionScalar, an integral
+    float through CreateFromFloat) each have a fraction of their own: editing the fraction of one of them in place is an
+    edit of that one - every value created before or after still denotes its number"""
+    from barril.basic.fraction import FractionValue
+    from barril.units import FractionScalar
+
+    makers = (("FractionValue(n)", lambda k: FractionValue(k), lambda o: o), ("FractionValue()", lambda k: FractionValue(), lambda o: o), ("CreateFromFloat(integral)", lambda k: FractionValue.CreateFromFloat(float(k)), lambda o: o),
+              ("FractionScalar(float)", lambda k: FractionScalar("length", float(k), "m"), lambda o: o.GetValue()), ("CreateFromString('n')", lambda k: FractionValue.CreateFromString(str(k)), lambda o: o))  # fmt: skip
+    for i in range(n):
+        k = r.randint(0, 99)
+        name, mk, fv_of = makers[i % len(makers)]
+        case = {"maker": name, "number": k}
+        ctx.ev()
+        ctx.nt(("no fraction", name, i % 7))
+        try:
+            earlier = [(nm, kk, m(kk)) for (nm, m, _f), kk in zip(makers, (3, 0, 11, 2, 7))]
+            victim = mk(k)
+            f = fv_of(victim).GetFraction()
+            if i % 3 == 0:
+                f.numerator, f.denominator = 1, 4
+            elif i % 3 == 1:
+                f[0], f[1] = 3, 8
+            else:
+                fv_of(victim).SetFraction((1, 2))
+            later = [(nm, kk, m(kk)) for (nm, m, _f), kk in zip(makers, (5, 0, 13, 4, 9))]
+            for when, objs in (("created before the edit", earlier), ("created after the edit", later)):
+                for (nm, kk, o), (_n2, _m2, f_of) in zip(objs, makers):
+                    want = 0.0 if nm == "FractionValue()" else float(kk)
+                    got = float(f_of(o))
+                    if got != want:
+                        ctx.violation("fraction-less-value-gained-a-fraction:%s" % when, dict(case, other=nm, other_number=kk, denotes=got, text=str(f_of(o))), replay=case)
+        except Exception as e:
+            ctx.violation("fraction-less-value-raised:%s" % type(e).__name__, dict(case, error=str(e)[:160]), replay=case)
+
+
 def fraction_arithmetic(ctx, r, n, dens):
     from barril.basic.fraction import Fraction
 
@@ -431,6 +467,7 @@ def run(ctx):
     scale = 1 if quick else 10
     fraction_values(ctx, r, 4000 * scale, dens)
     fraction_arithmetic(ctx, r, 3000 * scale, dens)
+    values_without_a_fraction(ctx, r, 60 * scale)
     create_from_float(ctx, r, 5000 * scale * (1 if quick else 3))
     db = table.build("posc")
     with table.pushed(db):
